@@ -1,4 +1,4 @@
-def Lanelet_find_lanelet_successors_in_range.for3 (succ pred : Nat → List Nat) (len : Nat → Rat) (selfId : Nat) (fuel : Nat) (max_length : Rat) (p : _) (le : _) :=
+@[simp] def Lanelet_find_lanelet_successors_in_range.for3 (succ pred : Nat → List Nat) (len : Nat → Rat) (selfId : Nat) (fuel : Nat) (max_length : Rat) (p : _) (le : _) :=
   fun (paths_final, paths_next, lengths_next) s =>
     if (decide (s ∈ p) || decide (s = selfId) || decide (le ≥ max_length)) then
       let paths_final := paths_final ++ [p]
@@ -15,7 +15,7 @@ def Lanelet_find_lanelet_successors_in_range.for3 (succ pred : Nat → List Nat)
           (paths_next, lengths_next, paths_final))
       (paths_final, paths_next, lengths_next)
 
-def Lanelet_find_lanelet_successors_in_range.for2 (succ pred : Nat → List Nat) (len : Nat → Rat) (selfId : Nat) (fuel : Nat) (max_length : Rat)  :=
+@[simp] def Lanelet_find_lanelet_successors_in_range.for2 (succ pred : Nat → List Nat) (len : Nat → Rat) (selfId : Nat) (fuel : Nat) (max_length : Rat)  :=
   fun (paths_final, paths_next, lengths_next) (p, le) =>
     let successors := (CR.PyC20.nbrOpt succ (CR.pyGet? p (-1)))
     if (!(CR.PyC20.truthy successors)) then
@@ -25,7 +25,7 @@ def Lanelet_find_lanelet_successors_in_range.for2 (succ pred : Nat → List Nat)
       let (paths_final, paths_next, lengths_next) := (successors).foldl (Lanelet_find_lanelet_successors_in_range.for3 succ pred len selfId fuel max_length p le) (paths_final, paths_next, lengths_next)
       (paths_final, paths_next, lengths_next)
 
-def Lanelet_find_lanelet_successors_in_range.while1 (succ pred : Nat → List Nat) (len : Nat → Rat) (selfId : Nat) (fuel : Nat) (max_length : Rat)  :=
+@[simp] def Lanelet_find_lanelet_successors_in_range.while1 (succ pred : Nat → List Nat) (len : Nat → Rat) (selfId : Nat) (fuel : Nat) (max_length : Rat)  :=
   CR.PyC20.mkLoop (fun (paths_final, paths, lengths) => (CR.PyC20.truthy paths)) (fun (paths_final, paths, lengths) =>
     let paths_next := []
     let lengths_next := []
